@@ -276,8 +276,49 @@ pub fn fmt_out(o: &Out) -> String {
     }
 }
 
+thread_local! {
+    /// probe hits of the current run (hooks in /repo, --cfg chalk_verif), accumulated across operations
+    static PROBE_ACC: RefCell<std::collections::BTreeMap<&'static str, u64>> = RefCell::new(Default::default());
+}
+
+pub const PROBES: &[&str] = &[
+    "solve.needs_truncation",
+    "slg.coinductive_cycle",
+    "slg.positive_cycle",
+    "slg.negative_cycle",
+    "slg.refinement_strand",
+    "slg.table_floundered",
+    "rec.cache_hit",
+    "rec.mixed_cycle",
+    "rec.fixed_point_reiteration",
+    "rec.early_exit_rollback",
+    "rec.interrupted_rollback",
+    "rec.moved_to_cache",
+    "could_match.prefilter_skipped",
+];
+
+/// move pending hook probes into the run accumulator; returns what was pending
+pub fn drain_probes() -> std::collections::BTreeMap<&'static str, u64> {
+    let p = chalk_ir::verif::take_probes();
+    PROBE_ACC.with(|a| {
+        let mut a = a.borrow_mut();
+        for (k, v) in &p {
+            *a.entry(k).or_insert(0) += v;
+        }
+    });
+    p
+}
+
+/// take the run accumulator (called once per run by the worker)
+pub fn take_run_probes() -> std::collections::BTreeMap<&'static str, u64> {
+    drain_probes();
+    PROBE_ACC.with(|a| std::mem::take(&mut *a.borrow_mut()))
+}
+
 #[derive(Clone, Debug, Default)]
 pub struct OpStats {
+    /// hook probes hit during this operation
+    pub probes: std::collections::BTreeMap<&'static str, u64>,
     pub db_calls: u64,
     pub fault_points: u64,
     pub sc_calls: u64,
@@ -335,6 +376,7 @@ pub fn run_op_on(
     fault: Option<u64>,
     budget: u64,
 ) -> (Out, OpStats) {
+    drain_probes();
     db.begin_op(budget, fault);
     let mut st = OpStats::default();
     let out = match kind {
@@ -377,6 +419,7 @@ pub fn run_op_on(
             }
         }
     };
+    st.probes = drain_probes();
     st.db_calls = db.op_calls();
     st.fault_points = db.op_points();
     // disarm any fault that did not fire
